@@ -396,7 +396,13 @@ func c14Run(e *Env, isCache bool) {
 			r.out.V, r.out.Ok = m.LoadAndDelete(in.K)
 		case mLoadAndDeleteAll:
 			r.call = tick()
-			r.out.Snap = snap(m.LoadAndDeleteAll())
+			taken := m.LoadAndDeleteAll()
+			r.out.Snap = snap(taken)
+			// what LoadAndDeleteAll returns is the caller's: it may do with it what it likes. Nothing it writes there has
+			// ever been stored in the Map.
+			for k := 0; k < nKeys; k++ {
+				taken[k] = -7
+			}
 		case mLength:
 			r.call = tick()
 			r.out.N = m.Length()
